@@ -11,21 +11,9 @@ TRUST = ("Trusted base: the gosym engine in /verif/engine (SSA interpreter, term
          "natively against the real build before being reported; sampled path models are replayed natively and in the "
          "engine's concrete mode and compared on every run (traces_validated_against_impl). ")
 
-# id -> (claimed?, technique, level text, level note, design ref)
-CLAIMED = {
- "C20": ("SSA->SMT symbolic execution of packets1.ReadPacket on a datagram of symbolic length 0..8192 with all bytes symbolic; panic-freedom as assertion",
-         "Bounded symbolic execution (model_checking): every feasible path of ReadPacket, Header.Unpack and the 28 Unpack methods is enumerated with the datagram length and all 8192 bytes symbolic; each bounds check / slice expression is a solver query, so absence of a panic path is decided for every datagram up to the transport maximum, not sampled.",
-         "Bounds: datagram length 0..8192. Outside: String()/logging; datagrams larger than the transport delivers.", "4 C20"),
- "C21": ("SSA->SMT symbolic execution of every packet constructor + Pack + ReadPacket with all field values symbolic; round-trip equality, length-form and length-arithmetic assertions",
-         "Bounded symbolic execution (model_checking): for each of the 28 packet types and each listed size of the variable field, all flags, IDs, codes and content bytes are symbolic; decode(encode(p)) == p field by field (header included), length field == datagram size and 1-octet form iff size <= 255 are solver-decided; header length arithmetic is decided with the variable-part length itself symbolic over 0..65531; the short-topic bijection over all 2-byte names / 16-bit IDs.",
-         "Bounds: variable field sizes quick 0..8, 245..258, 7168; thorough 0..300, 1024, 7168. Sizes in between are covered by the symbolic length arithmetic only.", "4 C21"),
- "C22": ("SSA->SMT symbolic execution of packets1.ReadPacket (+ Pack of the result) against an independent reference parser, datagram length and bytes symbolic",
-         "Bounded symbolic execution (model_checking), differential: on every path where the real decoder accepts a datagram (length symbolic 0..8192, all bytes symbolic) the reference parser written from the MQTT-SN 1.2 byte layout must accept it too and every scalar field / variable-field length / buffer aliasing must agree; for datagrams of n symbolic bytes (n listed) contents are compared byte by byte and Pack() of the decoded packet must reproduce type and body up to the three allowed differences.",
-         "Bounds: re-encode harness n in 0..24, 253..262 (quick) / 0..300 (thorough) with a length field equal to n in both header forms; other length-field values are covered by the symbolic-length fields harness. Reference parser (harness/shared/sn.go.tmpl) is part of the trusted base.", "4 C22"),
-}
-
-NA_DEFAULT = "check not built yet in this session; planned as described in DESIGN.md section 4 (solver-based, no other technique will be substituted)"
-NA = {}
+import sys
+sys.path.insert(0, '/verif/tools')
+from claims import CLAIMED, NA, NA_DEFAULT
 
 def main():
     props = [json.loads(l) for l in open('/verif/properties.jsonl')]
